@@ -49,6 +49,18 @@ CLAIMED = {
         text="Breadth-first search over histories of {insert, remove_vertex, Edit-API k=1 insert / k=1 remove, repair_delaunay_with_flips_advanced, clone swap, serde round-trip swap, mutable-view touch} from the empty triangulation and from constructed seeds (D=2..4, 5 in thorough; both kernels; alphabets containing on-edge and collinear points so that perturbation retries occur). In every reached state: all live vertices are pairwise at least the documented tolerance apart (exact arithmetic) and UUIDs are unique; then, on a clone, an insertion (both entry points) is probed at q, q+-0.5e-10 and q+-2e-10 for every current (stored) and every former vertex position q, and the outcome must be the duplicate-coordinates outcome exactly when the reference model has a live vertex strictly within 1e-10; re-using a live UUID must give the duplicate-UUID error.",
         note="Probes within 1% of the tolerance boundary are skipped. Batch-construction skipping/counting of duplicates is covered by C01's multiset and near-duplicate families. Two genuine defects found by this check were repaired (fix: 59315ef Edit-API flips bypassed the spatial index; fix: 289869f index kept stale keys after the initial-simplex rebuild).",
         design_ref="DESIGN.md section 5 (C09)"),
+    "C06": dict(
+        category="model_checking",
+        technique="exhaustive enumeration of (state, vertex) removal transitions on the real object plus BFS insert/remove histories; independent reference and exact oracle on every successor",
+        text="Every vertex (interior, hull, degree-(D+1) star, one of the last D+2) of the batch-constructed triangulation of every subset of the per-dimension alphabets (3x3 and 4x4 grids, unit cube + centre, D=4/5 cube alphabets, moment curves) is removed with automatic repair on and off (all three guarantees on the smallest family), then every vertex of every successor again on small sets, plus breadth-first insert/remove histories from seeds. On Ok: the vertex is gone, every other vertex keeps UUID, coordinate bits and data, the result is the bootstrap state or passes the independent Level 1-3 reference, and with repair enabled has no certain exact empty-circumsphere violation; Err must leave the fingerprint unchanged; removing an unknown vertex must return Ok(0) and change nothing.",
+        note="Known genuine defects: hull-vertex removal returns Ok with an invalid complex (listed per dimension / symptom / repair setting with victim=hull), and repair-on removals inherit the Level-4 verifier's blind spots. Interior-vertex violations are not listed and are reported.",
+        design_ref="DESIGN.md section 5 (C06)"),
+    "C10": dict(
+        category="model_checking",
+        technique="exhaustive enumeration of (valid state, query point, hint) triples through the real locate functions, judged by exact point-in-closed-simplex tests",
+        text="For every valid corpus state (batch-constructed, every valid flip-closure state up to a cap, incremental build, after each vertex removal) of every subset of the alphabets (D=2..5, both kernels): every point of the half-step refinement of the bounding grid extended by one cell (D<=3) plus all vertices, edge midpoints, cell and facet centroids and outward reflections through facets, with every hint class (none, live cells, a removed key, a foreign key), through locate and locate_with_stats. InsideCell(c) requires the point in c's closed simplex (exact arithmetic); Outside requires the point strictly outside every cell; the answer class must not depend on the hint; both entry points must agree.",
+        note="Quick tier uses 3 evenly spread live-cell hints per state (all cells in thorough). Queries with a non-zero facet determinant inside the tolerance band are skipped (none occur on the half-integer grids).",
+        design_ref="DESIGN.md section 5 (C10)"),
     "C12": dict(
         category="exploration",
         technique="exhaustive enumeration of grid tuples x vertex orders x scale variants against an exact (bigint) sign oracle",
